@@ -26,6 +26,7 @@ import contextvars
 import json
 import os
 import sys
+import types
 
 from mc.checks import c08_fp as FP
 from mc.checks import c08_shapes as SH
@@ -131,6 +132,9 @@ def default_holders(parser):
         for n, action in enumerate(p._actions):
             out.append((f"{prefix}{action.dest}#{n}", action, "default"))
         out.append((f"{prefix}_defaults", p, "_defaults"))
+    for lab, obj in SH.declarations(parser):
+        # other objects in which the user declared defaults (the schemas given to ActionJsonSchema arguments)
+        out.append((lab, types.SimpleNamespace(value=obj), "value"))
     return out
 
 
@@ -245,13 +249,16 @@ def _with_unknown(ns):
     return ns
 
 
-def prepare(op, parser, shape, cfg, scratch):
-    """-> (callable, [(label, watched object)], environ patch or None, sys.argv replacement or None)."""
+def prepare(op, parser, shape, cfg, scratch, used=None):
+    """-> (callable, [(label, watched object)], environ patch or None, sys.argv replacement or None).
+    used: list that receives the name of every library call made on `parser` while preparing the arguments."""
     name = op[0]
+    used = used if used is not None else []
 
     def parsed(c=cfg):
         from mc.util import outcome
 
+        used.append("parse_object")
         o = outcome(parser.parse_object, SH.build_root(c, "dict"))
         if o["kind"] != "ok":
             raise Skip("configuration is not accepted: no parsed form")
@@ -266,6 +273,7 @@ def prepare(op, parser, shape, cfg, scratch):
         path = os.path.join(os.getcwd(), "c08_source.json")
         with open(path, "w") as f:
             f.write(SH.text_of(cfg))
+        used.append("parse_path")
         o = outcome(parser.parse_path, path)
         if o["kind"] != "ok":
             raise Skip("configuration is not accepted: no parsed form")
@@ -472,7 +480,9 @@ def aliasing_oracle(result, holders, label):
     for oid, (o, under) in FP.containers(result).items():
         if oid in mine:
             lab, under_default = mine[oid]
-            if under or under_default:
+            if lab.endswith(":schema"):
+                where = "schema-default"  # a "default" of the JSON schema given to an ActionJsonSchema argument
+            elif under or under_default:
                 where = "inside-tuple-or-set"
             elif isinstance(o, set):
                 where = "set"
@@ -483,6 +493,21 @@ def aliasing_oracle(result, holders, label):
                 seen.add(sig)
                 devs.append((sig, f"[{label}] {type(o).__name__} {o!r:.80} of default {lab} is reachable from the result"))
     return devs
+
+
+def _preparation_alone_differs(op, shape, cfg, scratch, golden):
+    """Only evaluated when get_defaults() differs from the pristine twin after a call whose argument was built by a
+    parse on the same parser: does it already differ on a third parser after that preparation alone?"""
+    from mc.util import outcome
+
+    parser3 = shape["make"](scratch)
+    try:
+        prepare(op, parser3, shape, cfg, scratch)
+    except (Skip, SH.Unbuildable):
+        return False
+    og = outcome(parser3.get_defaults, skip_validation=True)
+    now = FP.value_only(FP.fingerprint(og["value"], FP.Keep())) if og["kind"] == "ok" else ("raises", og["kind"])
+    return now != golden
 
 
 _golden_cache = {}
@@ -530,6 +555,7 @@ def run_one(shape_name, ci, bad, op, counts=None, warm=False):
             cfg = SH.inject(cfg, path, bad["v"])
     label = op_label(op)
     files = bool(shape.get("files")) or op[0] in ("parse_path", "save") or "parsed_path" in op[1:2]
+    SH.DECLARATIONS.clear()
     with restored_process_state(), _restored_argv(), (scratch_dir() if files else contextlib.nullcontext(None)) as scratch:
         if files:
             work = os.path.join(scratch, shape.get("chdir", "work"))
@@ -552,8 +578,9 @@ def run_one(shape_name, ci, bad, op, counts=None, warm=False):
             outcome(parser.parse_args, SH.argv_of(shape, shape["configs"][0]))
             outcome(parser.format_help)
             outcome(parser.get_defaults)
+        used = []
         try:
-            fn, watched, environ, argv = prepare(op, parser, shape, cfg, scratch)
+            fn, watched, environ, argv = prepare(op, parser, shape, cfg, scratch, used)
         except (Skip, SH.Unbuildable):
             return [], "skip"
         if environ:
@@ -574,7 +601,11 @@ def run_one(shape_name, ci, bad, op, counts=None, warm=False):
         if not any(":declared-defaults:" in s for s, _ in devs):
             og = outcome(parser.get_defaults, skip_validation=True)
             now = FP.value_only(FP.fingerprint(og["value"], FP.Keep())) if og["kind"] == "ok" else ("raises", og["kind"])
-            if now != golden:
+            if now != golden and used and _preparation_alone_differs(op, shape, cfg, scratch, golden):
+                # the parse that built the argument of this call (a parse_object / parse_path of its own, explored
+                # and reported as an observed call elsewhere) had already changed the defaults: not this call's doing
+                counts["defaults-differ:attributed-to-preparation"] = counts.get("defaults-differ:attributed-to-preparation", 0) + 1
+            elif now != golden:
                 d = FP.first_difference(golden, now) if og["kind"] == "ok" and golden[0] != "raises" else (golden[:2], now[:2])
                 devs.append(
                     (
@@ -641,6 +672,14 @@ def run_case(case):
 
 BAD2 = {"zz": ["zz"]}  # a second kind of invalid value (a mapping): fails later / elsewhere than the string
 
+# Hand-written shapes that the quick tier runs like the generated family (core alphabet, invalid positions of the first
+# configuration only); the thorough tier runs them in full.  actions_final is the twin of actions_raw (same parser, the
+# declared defaults already in final form): every code path is executed by actions_raw with the full alphabet.
+QUICK_CORE_SHAPES = ("actions_final",)
+# Ten independent arguments with ~60 positions: the ~1500 pairs of invalid positions per configuration would cost more
+# than all other hand-written shapes together; two failures in two independent plain arguments add no code path.
+NO_PAIRS_SHAPES = ("actions_raw", "actions_final")
+
 
 def _independent(p, q):
     n = min(len(p), len(q))
@@ -650,12 +689,14 @@ def _independent(p, q):
 def items_for(tier):
     """(shape, configuration index, invalid positions or None, operation profile, warm) - the product of the tier.
 
-    quick:    hand-written shapes: every configuration x (valid + every single invalid position) x full alphabet;
+    quick:    hand-written shapes: every configuration x (valid + every single invalid position) x full alphabet
+              (QUICK_CORE_SHAPES: like the generated family);
               generated nests of depth <= 2 with a declared default (depth 1 also without): the raw-form configuration
               x (valid + every invalid position) and the final-form configuration (valid), core alphabet.
     thorough: hand-written shapes additionally with a second kind of invalid value at every position, with every PAIR
-              of independent invalid positions (core alphabet), and everything single again on a parser that has
-              already been used for a parse, a help text and get_defaults (warm);
+              of independent invalid positions (core alphabet; not for NO_PAIRS_SHAPES), and everything single again on
+              a parser that has already been used for a parse, a help text and get_defaults (warm; not for
+              QUICK_CORE_SHAPES);
               generated nests of depth <= 3: depth <= 2 with default forms none/final/raw, both configurations with
               every invalid position, full alphabet; depth 3 with default forms final/raw, core alphabet."""
     items = []
@@ -679,7 +720,10 @@ def items_for(tier):
 
     if tier == "quick":
         for name in SH.NAMED:
-            add(name, "full")
+            if name in QUICK_CORE_SHAPES:
+                add(name, "core", bad_for=(0,))
+            else:
+                add(name, "full")
         for t in SH.gen_types(2):
             depth = SH.type_depth(t)
             for dform in ["final"] + (["none"] if depth == 1 else []):
@@ -687,8 +731,10 @@ def items_for(tier):
     else:
         for name in SH.NAMED:
             add(name, "full", values=(SH.BAD, BAD2))
-            add(name, "full", warm=True)
-            add(name, "core", pairs=True)
+            if name not in QUICK_CORE_SHAPES:
+                add(name, "full", warm=True)
+            if name not in NO_PAIRS_SHAPES:
+                add(name, "core", pairs=True)
         for t in SH.gen_types(3):
             depth = SH.type_depth(t)
             if depth <= 2:
